@@ -437,6 +437,9 @@ static int dr_stream_get_buffered_data(sqfs_istream_t *base,
 
 		if (disksz == 0) {
 			memset(stream->buffer, 0, stream->buf_used);
+		} else if (disksz > rd->block_size) {
+			ret = SQFS_ERROR_OVERFLOW;
+			goto fail;
 		} else if (SQFS_IS_BLOCK_COMPRESSED(blkword)) {
 			ret = rd->file->read_at(rd->file, stream->disk_offset,
 						rd->scratch, disksz);
